@@ -88,6 +88,45 @@ structure View where
   trailingBytes : Nat
 deriving Repr, BEq, DecidableEq
 
+/-! The long header is parsed in five stages (one definition each, so that the parse∘serialise proof
+    in `Proofs/InitialHeader.lean` can go stage by stage). -/
+
+/-- stage 5: Length varint, packet number, payload -/
+def observe5 (fb version : Nat) (dcid scid : List Nat) (tw : Nat) (token : List Nat) (r5 : List Nat) (datagramLen : Nat) : Option View :=
+  match readVarint r5 with
+  | none => none
+  | some (len, lw, r6) =>
+    let pnLen := fb % 4 + 1
+    if r6.length < pnLen then none
+    else
+      let payload := r6.drop pnLen
+      let headerLen := 1 + 4 + 1 + dcid.length + 1 + scid.length + tw + token.length + lw + pnLen
+      let packetLen := headerLen - pnLen + len
+      some { firstByte := fb, version := version, dcidLen := dcid.length, dcid := dcid, scidLen := scid.length, scid := scid,
+             tokenLenWidth := tw, token := token, lengthField := len, lengthVarintWidth := lw,
+             pnLen := pnLen, pn := beNat (r6.take pnLen), headerLen := headerLen, payloadLen := payload.length,
+             frames := parseFrames (payload.length + 1) payload,
+             packetLen := packetLen, datagramLen := datagramLen,
+             trailingBytes := datagramLen - packetLen }
+
+/-- stage 4: token length varint and token -/
+def observe4 (fb version : Nat) (dcid scid : List Nat) (r3 : List Nat) (datagramLen : Nat) : Option View :=
+  match readVarint r3 with
+  | none => none
+  | some (tl, tw, r4) =>
+    if r4.length < tl then none
+    else observe5 fb version dcid scid tw (r4.take tl) (r4.drop tl) datagramLen
+
+/-- stage 3: source connection ID (`sl` = its length byte, already read) -/
+def observe3 (fb version : Nat) (dcid : List Nat) (sl : Nat) (r2 : List Nat) (datagramLen : Nat) : Option View :=
+  if sl > 20 ∨ r2.length < sl then none
+  else observe4 fb version dcid (r2.take sl) (r2.drop sl) datagramLen
+
+/-- stage 2: destination connection ID (`dl` = its length byte, already read) and the SCID length byte -/
+def observe2 (fb version dl : Nat) (r1 : List Nat) (datagramLen : Nat) : Option View :=
+  if dl > 20 ∨ r1.length < dl + 1 then none
+  else observe3 fb version (r1.take dl) ((r1.drop dl).headD 0) (r1.drop (dl + 1)) datagramLen
+
 /-- Parse a long-header packet whose protection was removed. `none`: not a long header with the
     fixed bit, a connection ID longer than 20 bytes, or truncated. -/
 def observe (plain : List Nat) (datagramLen : Nat) : Option View :=
@@ -96,42 +135,7 @@ def observe (plain : List Nat) (datagramLen : Nat) : Option View :=
   | fb :: r0 =>
     if fb / 64 ≠ 3 then none            -- header form 1, fixed bit 1
     else if r0.length < 5 then none
-    else
-      let version := beNat (r0.take 4)
-      let dl := (r0.drop 4).headD 0
-      let r1 := r0.drop 5
-      if dl > 20 ∨ r1.length < dl + 1 then none
-      else
-        let dcid := r1.take dl
-        let sl := (r1.drop dl).headD 0
-        let r2 := r1.drop (dl + 1)
-        if sl > 20 ∨ r2.length < sl then none
-        else
-          let scid := r2.take sl
-          let r3 := r2.drop sl
-          match readVarint r3 with
-          | none => none
-          | some (tl, tw, r4) =>
-            if r4.length < tl then none
-            else
-              let token := r4.take tl
-              let r5 := r4.drop tl
-              match readVarint r5 with
-              | none => none
-              | some (len, lw, r6) =>
-                let pnLen := fb % 4 + 1
-                if r6.length < pnLen then none
-                else
-                  let pn := beNat (r6.take pnLen)
-                  let payload := r6.drop pnLen
-                  let headerLen := 1 + 4 + 1 + dl + 1 + sl + tw + tl + lw + pnLen
-                  let packetLen := headerLen - pnLen + len
-                  some { firstByte := fb, version := version, dcidLen := dl, dcid := dcid, scidLen := sl, scid := scid,
-                         tokenLenWidth := tw, token := token, lengthField := len, lengthVarintWidth := lw,
-                         pnLen := pnLen, pn := pn, headerLen := headerLen, payloadLen := payload.length,
-                         frames := parseFrames (payload.length + 1) payload,
-                         packetLen := packetLen, datagramLen := datagramLen,
-                         trailingBytes := datagramLen - packetLen }
+    else observe2 fb (beNat (r0.take 4)) ((r0.drop 4).headD 0) (r0.drop 5) datagramLen
 
 /-! ### what a frame list shows -/
 
